@@ -43,8 +43,9 @@ Post(c, t) == IF c.mode = "box" THEN Reflect(c.blo * D, c.bhi * D, t) ELSE t
 Exact(xi, xj, z) == \A d \in 1..Len(xi) : (z[1] * (xi[d] - xj[d])) % z[2] = 0
 Stretch(xi, xj, z) == [d \in 1..Len(xi) |-> xj[d] + (z[1] * (xi[d] - xj[d])) \div z[2]]
 \* accept iff u_a <= z^(n-1) * 2^-dE with u_a = (2i+1)/2^(M+1); Tie: equality (excluded from exploration: float rounding decides)
-Lhs(c, z, dE, ui) == (2 * ui + 1) * IPow(z[2], c.n - 1) * (IF dE > 0 THEN Pow2(dE) ELSE 1)
-Rhs(c, z, dE) == IPow(z[1], c.n - 1) * Pow2(M + 1) * (IF dE < 0 THEN Pow2(-dE) ELSE 1)
+Clamp(e) == IF e > 11 THEN 11 ELSE e            \* |dE| >= 12 is decided without these products (keeps them inside 32 bits)
+Lhs(c, z, dE, ui) == (2 * ui + 1) * IPow(z[2], c.n - 1) * (IF dE > 0 THEN Pow2(Clamp(dE)) ELSE 1)
+Rhs(c, z, dE) == IPow(z[1], c.n - 1) * Pow2(M + 1) * (IF dE < 0 THEN Pow2(Clamp(-dE)) ELSE 1)
 Decidable(c, z, dE, ui) == dE >= 12 \/ dE <= -12 \/ Lhs(c, z, dE, ui) # Rhs(c, z, dE)
 AcceptW(c, z, dE, ui) == IF dE >= 12 THEN FALSE ELSE IF dE <= -12 THEN TRUE ELSE Lhs(c, z, dE, ui) < Rhs(c, z, dE)
 
